@@ -13,7 +13,7 @@ props = [l.split(":")[0] for l in lst.splitlines() if l.strip()]
 for d in sys.argv[1:]:
     s = tempfile.mkdtemp(prefix="kvqlneg-")
     try:
-        for f in glob.glob("/repo/*.go") + ["/repo/go.mod", "/repo/go.sum"]:
+        for f in glob.glob("/repo/*.go") + glob.glob("/repo/*.md") + ["/repo/go.mod", "/repo/go.sum"]:
             shutil.copy(f, s)
         rc, out = run(["patch", "-p1", "-s", "-i", os.path.join(d, "patch.diff")], s)
         if rc != 0:
